@@ -141,7 +141,8 @@ pub fn corpus(thorough: bool) -> Vec<Corpus> {
     let metas = meta_alphabet();
     for c in COMPS {
         let sets = settings_alphabet(c);
-        for mi in [2usize, 7] {
+        let floats_idx = metas.iter().position(|m| m.0 == "floats").unwrap();
+        for mi in [2usize, floats_idx] {
             for si in [7usize, 40, 95, 110] {
                 for nt in [0usize, 3] {
                     let mut l = Logical::new(c);
